@@ -30,9 +30,9 @@ static std::string base_token(const KeySpec &k, jwt_alg_t a, int pay, const char
 
 struct Mut { int kind, a, b, c; };
 enum { M_FLIP_CHAR, M_FLIP_BIT, M_RAW_BYTE, M_TRUNC_SIG, M_EXT_SIG, M_PAD_JUNK, M_INSERT_DOT, M_SIG_EMPTY, M_SIG_ZERO, M_SIG_RANDOM, M_SIG_WRONGLEN,
-       M_SIG_OTHER_TOKEN, M_SIG_OTHER_KEY, M_SIG_OTHER_ALG, M_EC_SPECIAL, M_ED_SPLUSL, M_RSA_ZERO, M_HDR_ALG, M_PAYLOAD, M_SWAP, M_HDR_WS, M_STD_ALPHA, M_NKINDS };
+       M_SIG_OTHER_TOKEN, M_SIG_OTHER_KEY, M_SIG_OTHER_ALG, M_EC_SPECIAL, M_ED_SPLUSL, M_RSA_ZERO, M_HDR_ALG, M_PAYLOAD, M_SWAP, M_HDR_WS, M_STD_ALPHA, M_RESIGN_RANGE, M_NKINDS };
 static const char *MN[] = {"flip-char", "flip-bit", "raw-byte", "trunc-sig", "ext-sig", "pad-junk", "insert-dot", "sig-empty", "sig-zero", "sig-random", "sig-wronglen",
-                           "sig-of-other-token", "sig-by-other-key", "sig-by-other-alg", "ecdsa-special", "eddsa-S+L", "rsa-zero-byte", "header-alg-swap", "payload-change", "swap-parts", "header-reencode", "std-alphabet"};
+                           "sig-of-other-token", "sig-by-other-key", "sig-by-other-alg", "ecdsa-special", "eddsa-S+L", "rsa-zero-byte", "header-alg-swap", "payload-change", "swap-parts", "header-reencode", "std-alphabet", "resigned-over-another-byte-range"};
 
 
 static const KeySpec *other_key(const KeySpec &k) {
@@ -81,6 +81,19 @@ static std::string apply(const KeySpec &k, jwt_alg_t alg, int pay, std::string t
       case 7: return reb(tp.h, tp.p, b64u_enc(std::string(1, '\0') + r + std::string(1, '\0') + s));
       case 8: { size_t nw = w == 66 ? 48 : w == 48 ? 32 : 24; return reb(tp.h, tp.p, b64u_enc(r.substr(w - nw) + s.substr(w - nw))); }
       } return t; }
+  case M_RESIGN_RANGE: {   // the real key signs something OTHER than "first segment . second segment": text with further dots, with '=' inside, or a prefix
+      if (!tp.ok) return t; std::string X; for (unsigned i = 0; i < 4 + ub % 9; i++) X += B64U[(uc + i * 11) % 64]; std::string over, text;
+      switch (ua % 8) {
+      case 0: over = tp.h + "." + tp.p + "=." + X; text = over; break;            // H.P=.X.S  S over "H.P=.X"
+      case 1: over = tp.h + "." + tp.p + "." + X; text = over; break;             // H.P.X.S   S over "H.P.X"
+      case 2: over = tp.h + "." + tp.p + "==." + X; text = over; break;
+      case 3: over = tp.h + "=." + tp.p; text = over; break;                      // H=.P.S    S over "H=.P"
+      case 4: over = tp.h + "." + tp.p; text = tp.h + "." + tp.p + "="; break;    // H.P=.S    S over "H.P"
+      case 5: over = tp.h + "." + tp.p; text = tp.h + "." + tp.p + "." + X; break; // H.P.X.S  S over "H.P"
+      case 6: over = tp.h; text = tp.h + "." + tp.p; break;                       // S over the header alone
+      default: over = tp.h + "." + tp.p + "."; text = tp.h + "." + tp.p; break;   // S over "H.P."
+      }
+      std::string s = ref_sign(k, alg, over); return s.empty() ? t : text + "." + b64u_enc(s); }
   case M_ED_SPLUSL: { if (!tp.ok || !ai || ai->kind != K_OKP || k.bits != 256 || tp.sdec.size() != 64) return t;
       static const unsigned char Lb[32] = {0xed, 0xd3, 0xf5, 0x5c, 0x1a, 0x63, 0x12, 0x58, 0xd6, 0x9c, 0xf7, 0xa2, 0xde, 0xf9, 0xde, 0x14, 0, 0, 0, 0, 0, 0, 0, 0, 0, 0, 0, 0, 0, 0, 0, 0x10};
       std::string s = tp.sdec; int carry = 0; for (int i = 0; i < 32; i++) { int v = (unsigned char)s[32 + i] + Lb[i] + carry; s[32 + i] = (char)(v & 0xff); carry = v >> 8; } return reb(tp.h, tp.p, b64u_enc(s)); }
